@@ -23,6 +23,7 @@ RULE = ("case = (peer flags persistent / always_reconnect / reconnect_wait / wit
 ASSUMPTIONS = ["'once its reconnect wait has elapsed' = at the first timer check with elapsed >= reconnect_wait, and "
                "not before", "a peer without addresses cannot be dialled"]
 TIMEOUT = {"quick": 900, "thorough": 3600}
+SCTP_CLONES = {"quick": ['rand3', 'exh9'], "thorough": ['rand10', 'rand11', 'exh15']}
 OUTCOMES = ["refused", "inprogress_ok_gone", "inprogress_fail", "cea_rejected", "cea_timeout", "gone", "error", "dpr",
             "inbound_dup_closed", "pending_inbound_lost"]
 FLAGSETS = [
